@@ -155,6 +155,14 @@ impl<R> PMTiles<R> {
     }
 }
 
+#[cfg(feature = "verif")]
+impl<R> PMTiles<R> {
+    /// Read-only snapshot of the tile store's internal maps (verification tooling only).
+    pub fn verif_snapshot(&self) -> crate::tile_manager::VerifSnapshot {
+        self.tile_manager.verif_snapshot()
+    }
+}
+
 impl<R: Read + Seek> PMTiles<R> {
     /// Get data of a tile by its id.
     ///
